@@ -53,3 +53,20 @@ pub assume_specification<T: Clone> [<[T]>::to_vec] (s: &[T]) -> (r: Vec<T>)
     ensures
         r@.len() == s@.len(),
         forall|i: int| 0 <= i < s@.len() ==> cloned(#[trigger] s@[i], r@[i]);
+
+pub assume_specification<T, A: Allocator> [std::collections::VecDeque::<T, A>::is_empty] (q: &std::collections::VecDeque<T, A>) -> (r: bool)
+    ensures
+        r == (q@.len() == 0);
+
+
+pub mod trusted_axioms {
+    use super::*;
+
+    /// A4: `String` hashes and compares consistently (vstd ships this axiom for the integer types only)
+    #[verifier::external_body]
+    pub broadcast proof fn axiom_string_key_model()
+        ensures
+            #[trigger] vstd::std_specs::hash::obeys_key_model::<String>(),
+    {
+    }
+}
